@@ -16,7 +16,7 @@ CLAUSES = {
             "governance-emitter-signed", "signed-without-guardian-set"),
     "C14": ("pending-entry-discarded-early", "no-retry-when-due", "retry-too-early", "unobserved-entry-not-expired",
             "completed-entry-not-expired", "unexpected-reobservation-request", "retry-budget-exceeded",
-            "no-reobservation-request-when-due", "cleanup-blocked-on-full-request-queue"),
+            "no-reobservation-request-when-due", "cleanup-blocked-on-full-request-queue", "retry-budget-refilled"),
     "C17": ("cleanup-blocked-on-full-request-queue",),
     "C03": ("invalid-observation-changed-state",),
 }
